@@ -158,7 +158,7 @@ fn lengths(ctx: &Ctx) -> (Vec<usize>, Vec<usize>, usize) {
                 eep.push(l);
             }
         }
-        for _ in 0..2000 {
+        for _ in 0..10000 {
             code.push(rng.usize(max_flash + 1));
         }
         for _ in 0..400 {
@@ -236,7 +236,7 @@ pub fn run(ctx: &Ctx) -> i32 {
     let _ = std::fs::remove_dir_all(scratch());
     fw::finish(
         ctx,
-        "write_code_hex and write_eeprom_hex called on synthetic BuildResults: every length 0..600 and every length within ±20 of each multiple of 64 KiB up to the largest flash in DEVICES (EEPROM writer: up to 64 KiB) with position-dependent contents (thorough: + lengths ≡ 0,1,15 mod 16 below 4096, 2000 random lengths, 1 MiB and 8 MiB images, full pipeline); plus 15 lengths written six times each with different contents through one BuildResult patched in place and through fresh objects, code and EEPROM writer alternating; distinct_nontrivial = distinct (writer, length) pairs",
+        "write_code_hex and write_eeprom_hex called on synthetic BuildResults: every length 0..600 and every length within ±20 of each multiple of 64 KiB up to the largest flash in DEVICES (EEPROM writer: up to 64 KiB) with position-dependent contents (thorough: + lengths ≡ 0,1,15 mod 16 below 4096, 10000 random lengths, 1 MiB and 8 MiB images, full pipeline); plus 15 lengths written six times each with different contents through one BuildResult patched in place and through fresh objects, code and EEPROM writer alternating; distinct_nontrivial = distinct (writer, length) pairs",
         &["refmodel/ihex.rs strict reader (self-tested on hand-made good and bad files)"],
     )
 }
